@@ -78,6 +78,12 @@ def reqline_scripts(ctx, n):
         items = [">" + traffic.hx(p) for p in traffic.chunkings(R, rng, rng.choice(("whole", "rand", "bytes")))] + \
                 ["<" + traffic.hx(b"HTTP/1.1 200 OK\r\nContent-Length: 0\r\n\r\n")]
         sc.append(traffic.script(cfg, "-", items))
+    # an HTTP/0.9 request line followed by junk around the length the parser tolerates (16 bytes of white space after the line still
+    # make it 0.9; more, or anything but white space, makes it a request with headers)
+    for k in range(13, 21):
+        for tail in (b"", b"X", b"\r\n"):
+            R = b"GET /zero9\r\n" + b" " * k + tail
+            sc.append(traffic.script("respdecomp=0", "-", [">" + traffic.hx(R)]))
     return sc
 
 
